@@ -318,6 +318,7 @@ def run(rep, ctx):
     pairs = []
     stats = dict(exit0=0, refused=0, by_template={}, problems={})
     src_tree = {}
+    src_ok = {}
     for (cfg, t, am, fc, _), kind, r in zip(jobs, meta, results):
         key = core.case_hash(cfg)
         stats["by_template"][t] = stats["by_template"].get(t, 0) + 1
@@ -327,6 +328,18 @@ def run(rep, ctx):
             stats["refused"] += 1
         for code, what in r["problems"]:
             stats["problems"][code] = stats["problems"].get(code, 0) + 1
+            if code == "generated-does-not-build" and not t.startswith("pythonic") and "InvalidConfigError" in what:
+                # the JSON templates load the SOURCE json: when create_machine() rejects that json itself (a Stately export
+                # without 'states', say) there is no machine whose names the generated logic could bind - not judged
+                if key not in src_ok:
+                    try:
+                        c18.build(cfg)
+                        src_ok[key] = True
+                    except Exception:  # noqa
+                        src_ok[key] = False
+                if not src_ok[key]:
+                    stats["problems"]["source-json-rejected-by-create_machine"] = stats["problems"].get("source-json-rejected-by-create_machine", 0) + 1
+                    continue
             sig = bind_signature(cfg, what) if (code == "generated-does-not-build" and not t.startswith("pythonic")) else None
             failures.append(dict(case=dict(kind="generate", cfg=cfg, template=t, async_mode=am, file_count=fc, family=kind),
                                  what="%s (-t %s -am %s -fc %d): %s" % (code, t, am, fc, what), signature=sig))
